@@ -121,7 +121,7 @@ MANUAL = {
         ("t_dq_inverse_transform_none", "dq.inverse_transform 0 1 2 3 4 5 6 7"),
         ("t_db2_concat", "db2.concat 2 1/2 5 6 3 1/3 7 8"), ("t_db2_to_matrix", "db2.to_matrix 2 1/2 5 6"),
         ("t_m3_concat2", "m3.concat2 " + _seq(18)), ("t_m3_concat", "m3.concat " + _seq(18)), ("t_m4_concat", "m4.concat " + _seq(32)),
-        ("t_m3_concat_self2", "m3.concat_self2 " + _seq(18)), ("t_m4_concat_self", "m4.concat_self " + _seq(32)),
+        ("t_m3_concat_self2", "m3.concat_self2 " + _seq(18)), ("t_m4_concat_self", "m4.concat_self " + _seq(32)), ("t_m3_concat_self", "m3.concat_self " + _seq(18)),
         ("t_dq_concat_self", "dq.concat_self 2 1 2 3 4 5 6 7 3 8 9 10 11 12 13 14"), ("t_dq_mul", "dq.mul 2 1 2 3 4 5 6 7 3 8 9 10 11 12 13 14"),
         ("t_dq_inverse_transform_vector", "dq.inverse_transform_vector 2 1 2 3 4 5 6 7 8 9 10"),
         ("t_m3_inverse_transform2_some", "m3.inverse_transform2 " + M3A), ("t_m3_inverse_transform_some", "m3.inverse_transform " + M3A),
